@@ -194,6 +194,45 @@ def run(ctx):
     else:
         chk.bad(R2, rp.qualname, 'transfer branch table', f'expected tests {need} in the per-object loop, found {tests}', where=f'{rp.module.relpath}:{loop.lineno}')
 
+    # every path that stages the row transfers the object's bytes exactly once, in the form the tests of that path select
+    rowdict = norm(rf.targets[0].value)
+    bad_paths = []
+    nstaging = 0
+    for pth in paths:
+        stage_ix = [i for i, x in enumerate(pth) if isinstance(x, ast.Expr) and isinstance(x.value, ast.Call) and isinstance(x.value.func, ast.Attribute)
+                    and x.value.func.attr == 'append' and x.value.args and norm(x.value.args[0]) == rowdict]
+        if not stage_ix:
+            continue
+        nstaging += 1
+        before = pth[:stage_ix[0]]
+        transfers = [x for x in before if isinstance(x, (ast.While, ast.For)) and any(isinstance(c, ast.Call) and isinstance(c.func, ast.Attribute) and c.func.attr == 'write' for c in ast.walk(x))]
+        tests_on = [(norm(t[1]), t[2]) for t in before if isinstance(t, tuple)]
+        if len(transfers) != 1:
+            bad_paths.append((pth, f'{len(transfers)} transfer loop(s) before the row is staged (tests on the path: {tests_on})'))
+            continue
+        tr = transfers[0]
+        deflates = any(isinstance(c, ast.Call) and isinstance(c.func, ast.Attribute) and c.func.attr == 'compress' for c in ast.walk(tr))
+        after_tr = before[before.index(tr) + 1:]
+        flushed = any(isinstance(x, ast.Expr) and isinstance(x.value, ast.Call) and norm(x.value.func).endswith('.write') and x.value.args and isinstance(x.value.args[0], ast.Call)
+                      and isinstance(x.value.args[0].func, ast.Attribute) and x.value.args[0].func.attr == 'flush' for x in after_tr)
+        eq_true = any(tx in (f'{src_var} == {dest}', f'{dest} == {src_var}') and pol for tx, pol in tests_on)
+        dest_true = any(tx == dest and pol for tx, pol in tests_on)
+        dest_false = any(tx == dest and not pol for tx, pol in tests_on)
+        if deflates and not flushed:
+            bad_paths.append((pth, 'the compressor is not flushed after the transfer loop'))
+        elif deflates and not dest_true:
+            bad_paths.append((pth, 'bytes are deflated on a path where the destination flag is not known to be true'))
+        elif not deflates and not (eq_true or dest_false):
+            bad_paths.append((pth, 'bytes are copied without deflating on a path where neither the flags are equal nor the destination flag is false'))
+    chk.require(nstaging >= 3, f'repack_pack: expected >= 3 paths that stage a row, found {nstaging}')
+    if bad_paths:
+        pth, why = bad_paths[0]
+        ln = next((x.lineno for x in pth if isinstance(x, ast.AST) and hasattr(x, 'lineno')), loop.lineno)
+        chk.bad(R2, rp.qualname, 'transfer paths of the repack loop', f'a row is staged with compressed = `{dest}` on a path where the stored bytes need not have that form: {why}',
+                where=f'{rp.module.relpath}:{ln}')
+    else:
+        chk.ok(R2, rp.qualname, f'{nstaging} staging path(s)', detail='each transfers the bytes exactly once: raw copy iff flags equal or destination uncompressed, deflate + flush iff destination compressed')
+
     # ---------------------------------------------------------------- R3
     ec = prog.fn('utils:estimate_compression')
     g = ctx.icfg(ec.qualname, {}, Policy(depth=0), key='d0')
@@ -245,6 +284,30 @@ def run(ctx):
         chk.ok(R4, rp.qualname, norm(sz[0]), detail='size copied from the row', nontrivial=False)
     else:
         chk.bad(R4, rp.qualname, "row['size']", 'repack does not carry over the uncompressed size of the row', where=f'{rp.module.relpath}:{rp.lineno}')
+
+    # length = on-disk bytes of exactly this object (the range must be one complete stored stream, else inflating it fails or returns other bytes):
+    # RangeMachine of C03.R1 on the three pack writers, reported here as C10.R4
+    from ..solver import run as solve2
+    from .c03 import RangeMachine
+    from .common import specialisations as _spec, write_policy as _wp
+    for q in ('container:Container.pack_all_loose', 'container:Container.add_streamed_objects_to_pack', 'container:Container.repack_pack'):
+        fnq = prog.fn(q)
+        combos = [{}] if not q.endswith('add_streamed_objects_to_pack') else (
+            list(_spec(fnq, {}, free={'do_fsync', 'do_commit', 'open_streams', 'compress'})) if not ctx.thorough else list(_spec(fnq, {})))
+        badr = False
+        for consts in combos:
+            g = ctx.icfg(q, consts, _wp(depth=5), key='wp5')
+            m = RangeMachine(ctx, g, 'C10.R4')
+            viols, st = solve2(g, m)
+            chk.crash_points += st['pairs']
+            chk.specialisations += 1
+            for v in viols:
+                if 'key' in v.msg and 'offset' not in v.msg and 'length' not in v.msg:
+                    continue
+                badr = True
+                chk.bad(R4, q, v.node.text(120), v.msg + f' [flags {consts}]', where=v.node.where, witness=v.witness)
+        if not badr:
+            chk.ok(R4, q, f'stored range, {len(combos)} flag combination(s)', detail='offset = tell() before the first write, length = tell() - offset after the last write (compressor flush included)', evals=len(combos))
 
     # ---------------------------------------------------------------- R5
     from .c07 import rewind_reset
